@@ -24,7 +24,7 @@ var nameRest = nameFirst + "."
 func genName(t *rapid.T, label string) string {
 	switch rapid.IntRange(0, 5).Draw(t, label+"kind") {
 	case 0:
-		return rapid.SampledFrom([]string{"docker", "docker-compose", "ecr", "artifacts", "shellcheck", "my_plugin", "a", "x.y", "plugin-buildkite-plugin", "github.com", "v1", "123", "gitlab.com", "-", "_", "a..b", "A"}).Draw(t, label)
+		return rapid.SampledFrom([]string{"docker", "docker-compose", "ecr", "artifacts", "shellcheck", "my_plugin", "a", "x.y", "plugin-buildkite-plugin", "github.com", "v1", "123", "gitlab.com", "-", "_", "a..b", "A", "thing.git", "x.git", "git", "a.github", "repo.GIT", "name.tar.gz", "www.example.com", "localhost", "my.org", "127.0.0.1"}).Draw(t, label)
 	default:
 		n := rapid.IntRange(1, 8).Draw(t, label+"len")
 		if rapid.IntRange(0, 39).Draw(t, label+"long") == 0 {
